@@ -3,6 +3,8 @@ import collections
 from . import common as c
 from . import authgen as g
 
+MAIN_FILES = ["g", "e", "x", "n", "o"]                 # see KM/Driver/C09.lean (reset3) for the letters
+ED_FILES = ["-", "g", "c", "r", "x", "n", "z", "o"]
 PASSES = ["password", "Password", "password ", "passwor", "", "x", "pass word", "PASSWORD", "hunter2", "password\x00"]
 
 
@@ -40,6 +42,21 @@ def run(ctx):
                 p = rng.choice(PASSES) if rng.random() < 0.75 else "password"
                 ops.append("inj2 pass:" + c.hexs(p))
         ops.append("req")
+    # round 5: the contents of the two CA key files as a fixture family (main file x Ed25519 file), every pair scripted
+    # once: a wrong passphrase, the right one twice; then random histories over random pairs
+    for mf in MAIN_FILES:
+        for ef in ED_FILES:
+            ops += ["reset3 %s %s %s" % (mf, ef, rng.choice(["-", "s", "f", "sf"])), "inj3 pass:" + c.hexs("Password"),
+                    "inj3 pass:" + c.hexs("password"), "inj3 pass:" + c.hexs("password")]
+    for _ in range(25 if ctx.quick() else 600):
+        pre = "-" if rng.random() < 0.4 else "".join(rng.sample("sef", rng.randint(1, 3)))
+        ops.append("reset3 %s %s %s" % (rng.choice(MAIN_FILES), rng.choice(ED_FILES), pre))
+        for _ in range(rng.randint(1, 5)):
+            k = rng.random()
+            if k < 0.2:
+                ops.append("inj3 " + rng.choice(["notls", "nochain", "noform"]))
+            else:
+                ops.append("inj3 pass:" + c.hexs(rng.choice(PASSES + ["another passphrase"]) if rng.random() < 0.5 else "password"))
     races = 3 if ctx.quick() else 60
     for _ in range(races):
         ops.append("race %d" % rng.choice([4, 8, 16]))
@@ -68,14 +85,16 @@ def run(ctx):
     # `served=` (do /public/sshca and the JWKS document carry every key that signs?) is observed on the
     # implementation only and judged below; everything else is compared with the model
     served = [([t for t in a.split() if t.startswith("served=")] or ["served=-"])[0][7:] for a in seq_impl]
-    seq_impl = [" ".join(t for t in a.split() if not t.startswith("served=")) for a in seq_impl]
+    keys = [([t for t in a.split() if t.startswith("keys=")] or ["keys=--"])[0][5:] for a in seq_impl]
+    seq_impl = [" ".join(t for t in a.split() if not t.startswith(("served=", "keys="))) for a in seq_impl]
     dis = c.diff_streams(ctx, "secretInjectorHandler/unsealCA/readyz vs KM.Seal", seq_ops, seq_impl, model)
     unsealed_seqs = sum(1 for a in seq_impl if a.split()[0] == "200" and len(a.split()) >= 6)
-    cur_reset = ""
+    cur_reset, right_pass = "", "password"
     for o, a, b, sv in zip(seq_ops, seq_impl, model, served):
         f = a.split()[:6]
         if o.startswith("reset"):
             cur_reset = o
+            right_pass = "another passphrase" if o.startswith("reset3 o ") else "password"
         if sv == "0":
             hist["served:missing"] += 1
             c.add_violation(ctx, "published-misses-signing-key:" + cur_reset,
@@ -87,10 +106,43 @@ def run(ctx):
             hist["inject:" + f[0]] += 1
             # judge: wrong passphrase must never unseal; ready signals never exceed one
             p = o.split()[1]
-            if f[0] == "200" and p != "pass:" + c.hexs("password"):
+            if f[0] == "200" and p != "pass:" + c.hexs(right_pass):
                 c.add_violation(ctx, "unsealed-by:" + p, "injection %r unsealed the server" % o, {"op": o, "impl": a})
             if int(f[5]) > 1:
                 c.add_violation(ctx, "double-ready", "readiness signalled %s times" % f[5], {"op": o, "impl": a})
+    # 2b. key-file fixtures: the observed state of every step judged by KM.Seal.soundB / obsOK / refused-stays-sealed
+    jl, jmeta = [], []
+    for o, a, kk in zip(seq_ops, seq_impl, keys):
+        if not o.startswith(("reset3", "inj3")):
+            continue
+        if o.startswith("reset3"):
+            cur3 = o
+        f = a.split()
+        d = dict(t.split("=", 1) for t in f[6:] if "=" in t)
+        if len(f) < 9 or len(kk) != 2 or not all(k_ in d for k_ in ("in", "ca", "obs")) or "," not in d["obs"]:
+            ctx.broken.append("key-file fixture step %r answered %r" % (o, a))
+            continue
+        rz, gd = d["obs"].split(",", 1)
+        jl.append("%s %s %s %s in=%s ca=%s %s %s %s" % ("reset" if o.startswith("reset3") else "inj", f[0], kk[0], kk[1],
+                                                        d["in"], d["ca"], f[5], rz, gd))
+        jmeta.append((cur3, o, a))
+    verdicts = c.run_driver(ctx, "judge", jl) if jl else []
+    if len(verdicts) != len(jl):
+        ctx.broken.append("C09 judge answered %d/%d lines" % (len(verdicts), len(jl)))
+    for (r3, o, a), line, v in zip(jmeta, jl, verdicts):
+        if o.startswith("reset3"):
+            hist["files:" + " ".join(o.split()[1:3])] += 1
+        else:
+            hist["inject3:" + a.split()[0]] += 1
+        if v == "ok":
+            continue
+        if not v.startswith("viol"):
+            ctx.broken.append("C09 judge on %r: %r" % (line, v))
+            continue
+        hist["files:" + v.split()[1]] += 1
+        c.add_violation(ctx, "keyfiles:%s:%s" % (v.split()[1], " ".join(r3.split()[1:3])),
+                        "key files %r, after %r: %s (observed %s)" % (r3, o, v[5:], a),
+                        {"ops": [r3, o], "impl": a, "judge_line": line, "verdict": v})
     # 3. races
     for o, a in zip(ops, impl):
         if o.startswith("race"):
@@ -130,7 +182,7 @@ def run(ctx):
             ctx.broken.append("correspondence real daemon vs KM.Seal (main() wiring): impl=%r model=%r" % (a, dmodel))
     ctx.coverage.update({
         "evaluations": len(ops), "distinct_nontrivial": len(set(ops[:n_sealed])) + unsealed_seqs,
-        "rule": "every registered handler (route table regenerated from main()) served with Signer=nil under recover() for generated request shapes incl. valid pre-minted sessions; random injection sequences from empty and pre-loaded keymaster_public_keys lists (no TLS / no verified chain / missing field / 10 passphrases incl. near misses) with readiness and a guarded route observed after each step, compared step by step with KM.Seal, /public/sshca and JWKS read back after every step; concurrent injection+request races; the real daemon binary built from the working tree, started sealed from a generated configuration and probed over TLS (readyz, readiness, service port) before and after a wrong and the right passphrase; non-trivial = distinct sealed probes + sequences that unsealed",
+        "rule": "every registered handler (route table regenerated from main()) served with Signer=nil under recover() for generated request shapes incl. valid pre-minted sessions; random injection sequences from empty and pre-loaded keymaster_public_keys lists (no TLS / no verified chain / missing field / 10 passphrases incl. near misses) with readiness and a guarded route observed after each step, compared step by step with KM.Seal, /public/sshca and JWKS read back after every step; the same over every pair of key-file contents (main file: good / Ed25519 key / non-key PEM / no PEM / other passphrase x Ed25519 file: absent / good / ECDSA key / RSA key / non-key PEM / no PEM / empty / other passphrase), each observed state judged by KM.Seal.soundB, obsOK and refused-stays-sealed; concurrent injection+request races; the real daemon binary built from the working tree, started sealed from a generated configuration and probed over TLS (readyz, readiness, service port) before and after a wrong and the right passphrase; non-trivial = distinct sealed probes + sequences that unsealed",
         "routes_probed_sealed": len(routes), "outcome_histogram": dict(hist),
         "seal_facts": {k: v for k, v in facts.get("c09", {}).items() if k != "routes"},
         "samples": [{"op": o, "impl": a} for o, a in list(zip(ops, impl))[:3] + list(zip(ops, impl))[n_sealed:n_sealed + 6]],
